@@ -45,6 +45,7 @@ text_s = st.one_of(
     st.text(max_size=40),
     st.text(alphabet=st.characters(blacklist_categories=("Cs",)), max_size=200),
     st.sampled_from(["", " ", "\n", "a\nb", "line1\r\nline2", "\x00", "tab\tx", "100% %s %d %(x)s", "{}", "<3>fake", '"quoted"', "\\n",
+                     "\udc80", "lone \ud800 surrogate", "path/\udcff\udcfe.bin",
                      "ünïcödé ✓ 𝄞", "  ", "x" * 5000]),
     st.integers(20000, 100000).map(lambda n: "L" * n),
 )
@@ -61,7 +62,8 @@ def case_s(draw) -> dict[str, Any]:
     mode = draw(st.sampled_from(["forward", "reverse", "reverse-from", "offset", "tail", "head"]))
     k = draw(st.one_of(st.sampled_from([0, 1, max(0, n - 1), n, n + 1, 100]), st.integers(0, max(1, n + 2))))
     return {"records": recs, "file_level": draw(st.sampled_from([10, 5])), "container": draw(st.sampled_from(["zst", "gz", "plain", "noprio", "stdin"])),
-            "mode": mode, "k": k, "prio": draw(st.integers(0, 8)), "via": draw(st.sampled_from(["reader", "reader", "hr"]))}
+            "mode": mode, "k": k, "prio": draw(st.integers(0, 8)), "via": draw(st.sampled_from(["reader", "reader", "hr"])),
+            "no_final_newline": draw(st.integers(0, 3)) == 0}
 
 
 class _Tap(logging.Handler):
@@ -113,12 +115,14 @@ def write_log(case: dict[str, Any], d: Path) -> tuple[Path, list[dict[str, Any]]
     return path, W
 
 
-def make_container(kind: str, zst: Path, d: Path) -> Path:
+def make_container(kind: str, zst: Path, d: Path, no_final_newline: bool = False) -> Path:
     import zstandard
 
     if kind == "zst":
         return zst
     raw = zstandard.ZstdDecompressor().stream_reader(zst.open("rb")).read()
+    if no_final_newline and raw.endswith(b"\n"):
+        raw = raw[:-1]  # a log that went through another tool (grep, head, an editor): the last record is not terminated
     if kind == "gz":
         p = d / "log.json.gz"
         with gzip.open(p, "wb") as f:
@@ -192,7 +196,7 @@ def check(case: dict[str, Any]) -> list[tuple[str, str]]:
         except Exception as e:  # noqa: BLE001
             return [(f"C17/write-raises/{type(e).__name__}", f"{type(e).__name__}: {e}")]
         cont = case["container"]
-        path = make_container(cont, zst, d)
+        path = make_container(cont, zst, d, bool(case.get("no_final_newline")))
         n = len(W)
         shape = "empty-log" if n == 0 else "log"
         mode, k, prio = case["mode"], case["k"], case["prio"]
